@@ -61,6 +61,10 @@ FIXED: List[Tuple[Dict[str, List[str]], str]] = [
     (ASSGN, 'forall <stmt> s in start: (count(s, "<var>", "2") or count(s, "<var>", "3") or count(s, "<var>", "4"))'),
     (NUMS, 'exists <list> l in start: (count(l, "<num>", "2"))'),
     (NUMS, 'exists <num> n in start: (count(n, "<dig>", "3"))'),
+    (NUMS, 'forall <num> n in start: ((= (mod 7 (str.to.int n)) 1))'),
+    (NUMS, 'exists <num> a in start: (exists <num> b in start: ((= (mod (str.to.int a) (str.to.int b)) 1)))'),
+    (ASSGN, 'forall <digit> d in start: ((= (mod 5 (str.to.int d)) 1))'),
+    (ASSGN, 'exists <digit> d in start: ((= (div 8 (str.to.int d)) 4))'),
     (NUMS, 'forall <num> n in start: ((> (str.to.int n) 10))'),
     (NUMS, 'exists <num> n in start: ((= (str.to.int n) 29))'),
     (NUMS, 'forall <num> n in start: ((= (str.len n) 2))'),
